@@ -280,6 +280,9 @@ func ruleC19(c *Ctx) {
 			stN, whyN = broken, "dH and dS look up different table entries: "+short(lk.String())+" vs "+short(nnS[0].T.Args[0].String())
 		case lk.Op != "lookup" || lk.Args[0].Op != "global" || lk.Args[1].Op != "slice":
 			whyN = "the neighbour lookup is " + short(lk.String())
+		case lk.Args[1].Args[0].String() == "call[strings.ToLower](param[0])":
+			// the other canonical case: consistent when the table is spelt in lower case, which is not read here
+			whyN = "neighbour windows are cut from the lower-cased sequence; whether the table's keys are spelt in lower case is not compared"
 		case lk.Args[1].Args[0].String() != up:
 			stN, whyN = stateOf(false, vocabOf(up), lk.Args[1].Args[0]), "neighbour windows are cut from "+short(lk.Args[1].Args[0].String())+", not from the upper-cased sequence"
 			if lk.Args[1].Args[0].contains(func(x *Term) bool {
